@@ -208,6 +208,9 @@ class Codec:
             logging.error(f"*** BodyLength missing or not 2nd field *** [{tag}]: {msg}")
             assert silent, "2nd tag must be BodyLength"
             return (None, len(rawmsg), None)
+        elif not (value.isascii() and value.isdigit()):
+            assert silent, "BodyLength is not a number"
+            return (None, len(rawmsg), None)
         else:
             msg_length += int(value)
 
@@ -230,8 +233,14 @@ class Codec:
                 assert silent, f"incomplete tag {m}"
                 return (None, len(rawmsg), None)
             tag, value = toks
+            if not (tag.isascii() and tag.isdigit()):
+                assert silent, f"non numeric tag {m}"
+                return (None, len(rawmsg), None)
 
             if tag == FTag.CheckSum:
+                if not (value.isascii() and value.isdigit()):
+                    assert silent, f"CheckSum is not a number {m}"
+                    return (None, parsed_length, None)
                 cheksum_base = self.SOH.join(msg[:-1])
                 checksum = (sum([ord(i) for i in cheksum_base]) + 1) % 256
 
@@ -283,6 +292,14 @@ class Codec:
                     current_context = current_context.parent
                     # pop the completed group off the stack
                     del repeating_groups[-1]
+
+                if not repeating_groups:
+                    # all groups are closed, it is a plain message tag again
+                    if tag in decoded_msg:
+                        decoded_msg.set(tag, RepeatingTagError)
+                    else:
+                        decoded_msg.set(tag, value)
+                    continue
 
                 if tag in current_context.tags:
                     # if the repeating group already contains this field,
